@@ -142,11 +142,13 @@ theorem inv_setW {s : St} {k : Nat} {f : Worker → Worker} (h : Inv s) (hk : k 
     · simp [setW, hjk]; rw [hjk] at this; rw [hrun i this.2, this.2]
     · simp [setW, hjk]
   · intro hq
-    obtain ⟨j, hj, hr⟩ := h.owed hq
-    refine ⟨j, hj, ?_⟩
-    by_cases hjk : j = k
-    · subst hjk; exact hresp hr
-    · exact resp_frame hr (by simp [setW, hjk]) id
+    rcases h.owed hq with ⟨j, hj, hr⟩ | hr
+    · left
+      refine ⟨j, hj, ?_⟩
+      by_cases hjk : j = k
+      · subst hjk; exact hresp hr
+      · exact resp_frame hr (by simp [setW, hjk]) id
+    · exact Or.inr hr
   · exact h.done_owed
   · exact h.handle_shut
   · exact h.freed_imp
@@ -252,10 +254,19 @@ theorem items_same {s s' : St} (h : Inv s) (hw : s'.w = s.w) (hnw : s'.nw = s.nw
   exact iinv_frame (h.items i (by omega)) (by rw [hit]) (by rw [hq]) (hd i) (fun _ => ⟨by omega, by rw [hw]⟩)
 
 theorem owed_same {s s' : St} (h : Inv s) (hw : s'.w = s.w) (hnw : s'.nw = s.nw) (hidle : s'.idle = s.idle)
-    (hq : s'.queue = s.queue) : s'.queue ≠ [] → ∃ k, k < s'.nw ∧ Resp s' k := by
+    (hq : s'.queue = s.queue)
+    (htn : s.started = 0 ∧ (s.tnOwed = true ∨ s.owner = .tnPre) → s'.started = 0 ∧ (s'.tnOwed = true ∨ s'.owner = .tnPre)) :
+    s'.queue ≠ [] → (∃ k, k < s'.nw ∧ Resp s' k) ∨ (s'.started = 0 ∧ (s'.tnOwed = true ∨ s'.owner = .tnPre)) := by
   intro hne
-  obtain ⟨k, hk, hr⟩ := h.owed (by rw [← hq]; exact hne)
-  exact ⟨k, by omega, resp_frame hr (by rw [hw]) (by rw [hidle]; exact id)⟩
+  rcases h.owed (by rw [← hq]; exact hne) with ⟨k, hk, hr⟩ | hr
+  · exact Or.inl ⟨k, by omega, resp_frame hr (by rw [hw]) (by rw [hidle]; exact id)⟩
+  · exact Or.inr (htn hr)
+
+/-- while a worker thread is alive, queued work has a responsible worker -/
+theorem owed_live {s : St} (h : Inv s) (hpos : 0 < s.started) (hq : s.queue ≠ []) : ∃ k, k < s.nw ∧ Resp s k := by
+  rcases h.owed hq with hr | hr
+  · exact hr
+  · omega
 
 theorem inv_oEv {s s' : St} (h : Inv s) (hs : step s .oEv = some s') : Inv s' := by
   simp only [step] at hs
@@ -278,7 +289,7 @@ theorem inv_oEv {s s' : St} (h : Inv s) (hs : step s .oEv = some s') : Inv s' :=
   · have := h.done_nodup; simp_all
   · have := h.done_lt; simp_all
   · exact items_same h rfl rfl rfl rfl rfl (by intro i; rw [hb]; simp)
-  · exact owed_same h rfl rfl rfl rfl
+  · exact owed_same h rfl rfl rfl rfl (fun hr => ⟨hr.1, Or.inl (hr.2.resolve_right (by simp [ho]))⟩)
   · simp
   · exact h.handle_shut
   · simp [hf]
@@ -308,7 +319,7 @@ theorem inv_oSteal {s s' : St} (h : Inv s) (hs : step s .oSteal = some s') : Inv
   · have := h.done_nodup; simp_all
   · have := h.done_lt; simp_all
   · exact items_same h rfl rfl rfl rfl rfl (by intro i; rw [hb]; simp)
-  · exact owed_same h rfl rfl rfl rfl
+  · exact owed_same h rfl rfl rfl rfl (fun hr => ⟨hr.1, Or.inl (hr.2.resolve_right (by simp [ho]))⟩)
   · simp
   · exact h.handle_shut
   · simp [hnf]
@@ -335,7 +346,7 @@ theorem inv_oTn {s s' : St} (h : Inv s) (hs : step s .oTn = some s') : Inv s' :=
   · have := h.done_nodup; simp_all
   · have := h.done_lt; simp_all
   · exact items_same h rfl rfl rfl rfl rfl (by intro i; rw [hb]; simp)
-  · exact owed_same h rfl rfl rfl rfl
+  · exact owed_same h rfl rfl rfl rfl (fun hr => ⟨hr.1, Or.inr rfl⟩)
   · have := h.done_owed; simp_all
   · exact h.handle_shut
   · simp [hf]
@@ -408,7 +419,7 @@ theorem inv_oComplete {s s' : St} (h : Inv s) (hs : step s .oComplete = some s')
       · exact Iff.rfl
       · simp [setI, hb, he]
       · intro _; exact ⟨Nat.le_refl _, rfl⟩
-  · exact owed_same h rfl rfl rfl rfl
+  · exact owed_same h rfl rfl rfl rfl (fun hr => ⟨hr.1, Or.inl (hr.2.resolve_right (by simp [ho]))⟩)
   · have := h.done_owed; simp_all [setI]
   · exact h.handle_shut
   · simp [setI, hnf]
@@ -419,14 +430,13 @@ theorem resp_live {s : St} {k : Nat} (h : Resp s k) : (s.w k).pc.live = true := 
   unfold Resp at h
   split at h <;> simp_all [WPc.live]
 
-/-- with no started thread the queue is empty -/
-theorem queue_empty_of_started_zero {s : St} (h : Inv s) (h0 : s.started = 0) : s.queue = [] := by
-  cases hq : s.queue with
-  | nil => rfl
-  | cons a l =>
-    obtain ⟨k, hk, hr⟩ := h.owed (by simp [hq])
-    have := live_pos h hk (resp_live hr)
+/-- with no started thread, queued work is waiting for `thread_needed` (a continuation from a thread that is not the owner) -/
+theorem tn_of_started_zero {s : St} (h : Inv s) (h0 : s.started = 0) (hq : s.queue ≠ []) :
+    s.tnOwed = true ∨ s.owner = .tnPre := by
+  rcases h.owed hq with ⟨k, hk, hr⟩ | hr
+  · have := live_pos h hk (resp_live hr)
     omega
+  · exact hr.2
 
 theorem inv_oFinish {s s' : St} (h : Inv s) (hs : step s .oFinish = some s') : Inv s' := by
   simp only [step] at hs
@@ -435,8 +445,7 @@ theorem inv_oFinish {s s' : St} (h : Inv s) (hs : step s .oFinish = some s') : I
   have hb : s.owner.batch = [] := by simp [ho]
   split at hs <;> simp at hs <;> subst hs
   · rename_i hc
-    obtain ⟨hsh, hst, hd⟩ := hc
-    have hq := queue_empty_of_started_zero h hst
+    obtain ⟨hsh, hst, hd, hq⟩ := hc
     constructor
     · exact h.nofatal
     · exact h.max_pos
@@ -451,7 +460,7 @@ theorem inv_oFinish {s s' : St} (h : Inv s) (hs : step s .oFinish = some s') : I
     · have := h.done_nodup; simp_all
     · have := h.done_lt; simp_all
     · exact items_same h rfl rfl rfl rfl rfl (by intro i; rw [hb]; simp)
-    · exact owed_same h rfl rfl rfl rfl
+    · intro hne; exact absurd hq hne
     · simp [hd]
     · exact h.handle_shut
     · simp [hsh, hst, hq, hd]
@@ -471,14 +480,18 @@ theorem inv_oFinish {s s' : St} (h : Inv s) (hs : step s .oFinish = some s') : I
     · have := h.done_nodup; simp_all
     · have := h.done_lt; simp_all
     · exact items_same h rfl rfl rfl rfl rfl (by intro i; rw [hb]; simp)
-    · exact owed_same h rfl rfl rfl rfl
+    · exact owed_same h rfl rfl rfl rfl (fun hr => ⟨hr.1, Or.inl (hr.2.resolve_right (by simp [ho]))⟩)
     · have := h.done_owed; simp_all
     · exact h.handle_shut
     · have := owner_not_idle_not_freed h (by simp [ho]); simp [this]
     · intro hsh hst _
-      have hd : s.done ≠ [] := by intro hd; exact hc ⟨hsh, hst, hd⟩
-      have := h.done_owed hd
-      simp_all
+      by_cases hd : s.done = []
+      · have hq : s.queue ≠ [] := by intro hq; exact hc ⟨hsh, hst, hd, hq⟩
+        have := tn_of_started_zero h hst hq
+        simp [ho] at this
+        exact Or.inr (Or.inr (Or.inr ⟨hq, Or.inl this⟩))
+      · have := h.done_owed hd
+        simp_all
 
 theorem liveCount_startThread (s : St) : liveCount (startThread s) = liveCount s + 1 := by
   unfold liveCount startThread
@@ -486,9 +499,15 @@ theorem liveCount_startThread (s : St) : liveCount (startThread s) = liveCount s
   rw [cnt_congr (q := fun k => (s.w k).pc.live) s.nw (by intro j hj; simp [Nat.ne_of_lt hj])]
   simp [WPc.live]
 
-/-- `iv_work_start_thread` with room below the maximum keeps the invariant -/
-theorem inv_startThread {s : St} (h : Inv s) (hlt : s.started < s.max) (hnf : s.freed = false) : Inv (startThread s) := by
+/-- `iv_work_start_thread` from the thread_needed handler, with room below the maximum, keeps the invariant -/
+theorem inv_startThread {s : St} (h : Inv s) (ho : s.owner = .tnPre) (hlt : s.started < s.max) :
+    Inv (startThread { s with owner := .idle }) := by
   have hnotidle : s.nw ∉ s.idle := fun hm => by have := h.idle_lt _ hm; omega
+  have hb : s.owner.batch = [] := by simp [ho]
+  have hnf : s.freed = false := by
+    cases hf : s.freed
+    · rfl
+    · have := (h.freed_imp hf).2.2.2.2.1; simp [ho] at this
   constructor
   · exact h.nofatal
   · exact h.max_pos
@@ -507,22 +526,28 @@ theorem inv_startThread {s : St} (h : Inv s) (hlt : s.started < s.max) (hnf : s.
       · exact Nat.le_refl _
       · exact Nat.le_refl _
       · intro _ _; rfl
-  · rw [liveCount_startThread, ← h.started_eq]; rfl
+  · have := liveCount_startThread { s with owner := .idle }
+    rw [this]
+    show s.started + 1 = liveCount s + 1
+    rw [← h.started_eq]
   · show s.started + 1 ≤ s.max; omega
   · exact h.queue_nodup
   · exact h.queue_lt
-  · exact h.done_nodup
-  · exact h.done_lt
+  · have := h.done_nodup; simp_all [startThread]
+  · have := h.done_lt; simp_all [startThread]
   · intro i hi
-    refine iinv_frame (h.items i hi) rfl Iff.rfl Iff.rfl ?_
-    intro hp
-    have := (h.items i hi).r_imp hp
-    refine ⟨by simp [startThread], ?_⟩
-    simp [startThread, Nat.ne_of_lt this.1]
-  · intro hq
-    obtain ⟨k, hk, hr⟩ := h.owed hq
-    exact ⟨k, by simp [startThread]; omega, resp_frame hr (by simp [startThread, Nat.ne_of_lt hk]) id⟩
-  · exact h.done_owed
+    refine iinv_frame (h.items i hi) rfl Iff.rfl ?_ ?_
+    · simp [startThread, hb]
+    · intro hp
+      have := (h.items i hi).r_imp hp
+      refine ⟨by simp [startThread], ?_⟩
+      simp [startThread, Nat.ne_of_lt this.1]
+  · intro _
+    exact Or.inl ⟨s.nw, by simp [startThread], by simp [Resp, startThread]⟩
+  · intro hd
+    rcases h.done_owed hd with he | he
+    · exact Or.inl he
+    · simp [ho] at he
   · exact h.handle_shut
   · intro hf; simp [startThread, hnf] at hf
   · intro _ h0; simp [startThread] at h0
@@ -533,7 +558,25 @@ theorem inv_oTnRun {s s' : St} (h : Inv s) (hs : step s .oTnRun = some s') : Inv
   rename_i ho
   have hb : s.owner.batch = [] := by simp [ho]
   have hnf := owner_not_idle_not_freed h (by simp [ho])
-  have h1 : Inv { s with owner := .idle } := by
+  split at hs <;> simp at hs <;> subst hs
+  · rename_i hc
+    exact inv_startThread h ho hc.2
+  · rename_i hc
+    -- nothing to start: an idle thread exists or the pool is at its maximum, so some thread is alive
+    have hpos : 0 < s.started := by
+      rcases Nat.eq_zero_or_pos s.started with h0 | h0
+      · exfalso
+        apply hc
+        refine ⟨?_, by have := h.max_pos; omega⟩
+        cases hq : s.idle with
+        | nil => rfl
+        | cons a l =>
+          have hm : a ∈ s.idle := by simp [hq]
+          have hl : (s.w a).pc.live = true := by
+            rcases (h.wk a (h.idle_lt a hm)).idle_pc hm with h | h | h <;> simp [h, WPc.live]
+          have := live_pos h (h.idle_lt a hm) hl
+          omega
+      · exact h0
     constructor
     · exact h.nofatal
     · exact h.max_pos
@@ -548,15 +591,11 @@ theorem inv_oTnRun {s s' : St} (h : Inv s) (hs : step s .oTnRun = some s') : Inv
     · have := h.done_nodup; simp_all
     · have := h.done_lt; simp_all
     · exact items_same h rfl rfl rfl rfl rfl (by intro i; rw [hb]; simp)
-    · exact owed_same h rfl rfl rfl rfl
+    · exact owed_same h rfl rfl rfl rfl (fun hr => by omega)
     · have := h.done_owed; simp_all
     · exact h.handle_shut
     · simp [hnf]
-    · have := h.shut_ev; simp_all
-  split at hs <;> simp at hs <;> subst hs
-  · rename_i hc
-    exact inv_startThread h1 hc.2 hnf
-  · exact h1
+    · intro _ h0; have h0' : s.started = 0 := h0; omega
 
 
 theorem idle_live {s : St} (h : Inv s) {k : Nat} (hk : k ∈ s.idle) : (s.w k).pc.live = true := by
@@ -601,7 +640,7 @@ theorem inv_put {s s' : St} (h : Inv s) (hs : step s .put = some s') : Inv s' :=
     · exact h.done_nodup
     · exact h.done_lt
     · exact items_same h rfl rfl rfl rfl rfl (fun _ => Iff.rfl)
-    · exact owed_same h rfl rfl rfl rfl
+    · exact owed_same h rfl rfl rfl rfl id
     · simp
     · simp
     · simp [hnf]
@@ -636,8 +675,8 @@ theorem inv_put {s s' : St} (h : Inv s) (hs : step s .put = some s') : Inv s' :=
       refine ⟨Nat.le_refl _, ?_⟩
       by_cases hm : (s.it i).worker ∈ s.idle <;> simp [hm]
     · intro hq
-      obtain ⟨k, hk, hr⟩ := h.owed hq
-      refine ⟨k, hk, ?_⟩
+      obtain ⟨k, hk, hr⟩ := owed_live h (Nat.pos_of_ne_zero h0) hq
+      refine Or.inl ⟨k, hk, ?_⟩
       unfold Resp at *
       by_cases hm : k ∈ s.idle
       · simp [hm] at hr ⊢; split at hr <;> simp_all
@@ -707,7 +746,7 @@ theorem die_core {s : St} {k : Nat} (h : Inv s) (hk : k < s.nw)
       simp [setW, hne]
     · intro hqne
       obtain ⟨k', hne, hk', hr⟩ := hq hqne
-      refine ⟨k', hk', resp_frame hr (by simp [setW, hne]) ?_⟩
+      refine Or.inl ⟨k', hk', resp_frame hr (by simp [setW, hne]) ?_⟩
       intro hm; exact (hmem k' hne).1 hm
     · intro hd
       have := h.done_owed hd
@@ -718,7 +757,7 @@ theorem die_core {s : St} {k : Nat} (h : Inv s) (hk : k < s.nw)
     · intro hf; simp [setW, hnf] at hf
     · intro hsh hst _
       first
-        | (left; rfl)
+        | exact Or.inl rfl
         | exact absurd ⟨hsh, hst⟩ hif
 
 
@@ -804,11 +843,14 @@ theorem loopTail_inv {s : St} {k : Nat} (h : Inv s) (hk : k < s.nw) (hpc : (s.w 
               intro hek; rw [hek, hpc] at this; simp at this
             simp [setW, setI, hne]
       · intro _
-        exact ⟨k, hk, by simp [Resp, setW, setI]⟩
+        exact Or.inl ⟨k, hk, by simp [Resp, setW, setI]⟩
       · exact h.done_owed
       · exact h.handle_shut
       · intro hf; simp [setW, setI, hnf] at hf
-      · exact h.shut_ev
+      · intro _ h0
+        have h0' : s.started = 0 := h0
+        have := live_pos h hk hlive
+        omega
     · -- the list cannot be empty here
       rename_i hq
       rw [hq] at hseq; simp at hseq; omega
@@ -918,14 +960,17 @@ theorem enterPrep_inv {s : St} {k : Nat} (h : Inv s) (hk : k < s.nw) (hpc : (s.w
     refine ⟨Nat.le_refl _, ?_⟩
     by_cases hne : (s.it i).worker = k <;> simp [setW, hne]
   · intro hq
-    obtain ⟨j, hj, hr⟩ := h.owed hq
+    obtain ⟨j, hj, hr⟩ := owed_live h (live_pos h hk hlive) hq
     by_cases hjk : j = k
-    · exact ⟨k, hk, by simp [Resp, setW, hpc]⟩
-    · exact ⟨j, hj, resp_frame hr (by simp [setW, hjk]) (fun hm => (hmem j hjk).1 hm)⟩
+    · exact Or.inl ⟨k, hk, by simp [Resp, setW, hpc]⟩
+    · exact Or.inl ⟨j, hj, resp_frame hr (by simp [setW, hjk]) (fun hm => (hmem j hjk).1 hm)⟩
   · exact h.done_owed
   · exact h.handle_shut
   · intro hf; simp [setW, hnf] at hf
-  · exact h.shut_ev
+  · intro _ h0
+    have h0' : s.started = 0 := h0
+    have := live_pos h hk hlive
+    omega
 
 theorem inv_wEnter {s s' : St} {k : Nat} (h : Inv s) (hs : step s (.wEnter k) = some s') : Inv s' := by
   simp only [step] at hs
@@ -1028,7 +1073,7 @@ theorem afterPrep_inv {s : St} {k i : Nat} (h : Inv s) (hk : k < s.nw) (hpc : (s
           intro hek; rw [hek, hpc] at this; simp at this; exact he this.2.symm
         simp [setW, setI, hne]
   · intro hq
-    exact ⟨k, hk, by simp [Resp, setW, setI]⟩
+    exact Or.inl ⟨k, hk, by simp [Resp, setW, setI]⟩
   · intro _
     show (s.evOwed || s.done.isEmpty) = true ∨ s.owner = .evPre
     cases hd : s.done with
@@ -1039,12 +1084,10 @@ theorem afterPrep_inv {s : St} {k i : Nat} (h : Inv s) (hk : k < s.nw) (hpc : (s
       · exact Or.inr h
   · exact h.handle_shut
   · intro hf; simp [setW, setI, hnf] at hf
-  · intro hsh hst hfr
-    have := h.shut_ev hsh hst hfr
-    show (s.evOwed || s.done.isEmpty) = true ∨ _
-    rcases this with h | h
-    · simp [h]
-    · exact Or.inr h
+  · intro _ h0
+    have h0' : s.started = 0 := h0
+    have := live_pos h hk hlive
+    omega
 
 theorem inv_wAfter {s s' : St} {k : Nat} (h : Inv s) (hs : step s (.wAfter k) = some s') : Inv s' := by
   simp only [step] at hs
@@ -1086,7 +1129,7 @@ theorem inv_wTimeoutRun {s s' : St} {k : Nat} (h : Inv s) (hs : step s (.wTimeou
     subst hs
     refine die_core h hk (Or.inr hpc) (by simpa using hkick) htm ?_ _ (by simp)
     intro hq
-    obtain ⟨j, hj, hr⟩ := h.owed hq
+    obtain ⟨j, hj, hr⟩ := owed_live h (live_pos h hk (by simp [hpc, WPc.live])) hq
     refine ⟨j, ?_, hj, hr⟩
     intro he; subst he
     simp [Resp, hpc] at hr
@@ -1107,7 +1150,7 @@ theorem inv_enq {s : St} (h : Inv s) (hh : s.handle = true)
     (hpc : ∀ j, j < s.nw → (w' j).pc = (s.w j).pc)
     (hwk : ∀ k, k < nw' → WInv (enqWith s w' nw' st' tn') k)
     (hst : st' = liveCount (enqWith s w' nw' st' tn')) (hle : st' ≤ s.max)
-    (howed : ∃ k, k < nw' ∧ Resp (enqWith s w' nw' st' tn') k) : Inv (enqWith s w' nw' st' tn') := by
+    (howed : (∃ k, k < nw' ∧ Resp (enqWith s w' nw' st' tn') k) ∨ (st' = 0 ∧ tn' = true)) : Inv (enqWith s w' nw' st' tn') := by
   have hnf := handle_not_freed h hh
   have hsh := h.handle_shut.1 hh
   have hniq : s.ni ∉ s.queue := fun hm => by have := h.queue_lt _ hm; omega
@@ -1154,7 +1197,10 @@ theorem inv_enq {s : St} (h : Inv s) (hh : s.handle = true)
       · intro hp
         have := (h.items i hlt).r_imp hp
         exact ⟨hnw, hpc _ this.1⟩
-  · intro _; exact howed
+  · intro _
+    rcases howed with hr | hr
+    · exact Or.inl hr
+    · exact Or.inr ⟨hr.1, Or.inl hr.2⟩
   · exact h.done_owed
   · exact h.handle_shut
   · intro hf; simp [enqWith, enq0, hnf] at hf
@@ -1170,8 +1216,19 @@ theorem winv_enq_frame {s : St} (h : Inv s) {w' : Nat → Worker} {nw' st' : Nat
     have := ((h.wk j hj).run_item i hr).1
     simp [enqWith, enq0, Nat.ne_of_lt this]
 
-theorem enqueue_inv {s : St} (h : Inv s) (hh : s.handle = true) (b : Bool)
-    (hsub : b = false → ∃ k, k < s.nw ∧ (s.w k).pc.isRunning = true) : Inv (enqueue s b) := by
+/-- a live worker that is not on the idle list is responsible -/
+theorem resp_of_live_nonidle {s : St} (h : Inv s) {k : Nat} (hk : k < s.nw) (hl : (s.w k).pc.live = true)
+    (hni : k ∉ s.idle) : Resp s k := by
+  have := (h.wk k hk).nonidle hl hni
+  unfold Resp
+  rcases this with hp | hp | hp | hp | hp
+  · simp [hp]
+  · simp [hp]
+  · simp [hp]
+  · revert hp; cases (s.w k).pc <;> simp [WPc.isRunning]
+  · simp [hp.1, hp.2, hni]
+
+theorem enqueue_inv {s : St} (h : Inv s) (hh : s.handle = true) (b : Bool) : Inv (enqueue s b) := by
   unfold enqueue
   have hidle0 : (enq0 s).idle = s.idle := rfl
   simp only [hidle0]
@@ -1194,7 +1251,7 @@ theorem enqueue_inv {s : St} (h : Inv s) (hh : s.handle = true) (b : Bool)
     · rw [h.started_eq]; symm
       refine liveCount_congr (s := s) rfl ?_
       intro j _; by_cases hjt : j = t <;> simp [enqWith, enq0, hjt]
-    · refine ⟨t, ht, ?_⟩
+    · refine Or.inl ⟨t, ht, ?_⟩
       have := hwt.idle_pc htm
       simp only [Resp, enqWith, enq0]
       rcases this with hp | hp | hp <;> simp [hp]
@@ -1215,17 +1272,20 @@ theorem enqueue_inv {s : St} (h : Inv s) (hh : s.handle = true) (b : Bool)
           · exact winv_enq_frame h (by omega) (by simp [hkn])
         · have := liveCount_startThread s
           rw [h.started_eq, ← this]; rfl
-        · exact ⟨s.nw, by omega, by simp [Resp, enqWith, enq0]⟩
-      · -- a worker asks the owner for a thread
+        · exact Or.inl ⟨s.nw, by omega, by simp [Resp, enqWith, enq0]⟩
+      · -- a thread that is not the owner asks the owner for a thread: with no thread at all the request is what is
+        -- owed; otherwise a live thread exists, nobody is idle, so that thread is responsible
         rename_i hb
         show Inv (enqWith s s.w s.nw s.started true)
         refine inv_enq h hh _ _ _ _ (Nat.le_refl _) (fun _ _ => rfl) ?_ ?_ h.started_le ?_
         · intro k hk; exact winv_enq_frame h hk rfl
         · rw [h.started_eq]; rfl
-        · obtain ⟨k, hk, hr⟩ := hsub (by simpa using hb)
-          refine ⟨k, hk, ?_⟩
-          simp only [Resp, enqWith, enq0]
-          revert hr; cases (s.w k).pc <;> simp [WPc.isRunning]
+        · rcases Nat.eq_zero_or_pos s.started with h0 | hpos
+          · exact Or.inr ⟨h0, rfl⟩
+          · rw [h.started_eq] at hpos
+            obtain ⟨k, hk, hl⟩ := cnt_pos _ hpos
+            have hr := resp_of_live_nonidle h hk hl (by rw [hidle]; simp)
+            exact Or.inl ⟨k, hk, resp_frame (s' := enqWith s s.w s.nw s.started true) hr rfl id⟩
     · -- at the maximum, nobody idle: a live worker that is not idle is responsible
       rename_i hge
       have hge : ¬ s.started < s.max := hge
@@ -1235,34 +1295,35 @@ theorem enqueue_inv {s : St} (h : Inv s) (hh : s.handle = true) (b : Bool)
       · rw [h.started_eq]; rfl
       · have hpos : 0 < liveCount s := by rw [← h.started_eq]; have := h.max_pos; omega
         obtain ⟨k, hk, hl⟩ := cnt_pos _ hpos
-        refine ⟨k, hk, ?_⟩
-        have := (h.wk k hk).nonidle hl (by rw [hidle]; simp)
-        simp only [Resp, enqWith, enq0]
-        rcases this with hp | hp | hp | hp | hp
-        · simp [hp]
-        · simp [hp]
-        · simp [hp]
-        · revert hp; cases (s.w k).pc <;> simp [WPc.isRunning]
-        · simp [hp.1, hp.2, hidle]
+        have hr := resp_of_live_nonidle h hk hl (by rw [hidle]; simp)
+        exact Or.inl ⟨k, hk, resp_frame (s' := enqWith s s.w s.nw s.started s.tnOwed) hr rfl id⟩
 
 theorem inv_submit {s s' : St} (h : Inv s) (hs : step s .submit = some s') : Inv s' := by
   simp only [step] at hs
   split at hs <;> simp only [Option.some.injEq, reduceCtorEq] at hs
   subst hs
   rename_i hc
-  exact enqueue_inv h hc.1 true (by simp)
+  exact enqueue_inv h hc.1 true
 
 theorem inv_submitc {s s' : St} {k : Nat} (h : Inv s) (hs : step s (.submitc k) = some s') : Inv s' := by
   simp only [step] at hs
   split at hs <;> simp only [Option.some.injEq, reduceCtorEq] at hs
   subst hs
   rename_i hc
-  exact enqueue_inv h hc.1 false (fun _ => ⟨k, hc.2.1, hc.2.2⟩)
+  exact enqueue_inv h hc.1 false
+
+theorem inv_submitf {s s' : St} (h : Inv s) (hs : step s .submitf = some s') : Inv s' := by
+  simp only [step] at hs
+  split at hs <;> simp only [Option.some.injEq, reduceCtorEq] at hs
+  subst hs
+  rename_i hc
+  exact enqueue_inv h hc false
 
 theorem inv_step {s s' : St} {a : Act} (h : Inv s) (hs : step s a = some s') : Inv s' := by
   cases a with
   | submit => exact inv_submit h hs
   | submitc k => exact inv_submitc h hs
+  | submitf => exact inv_submitf h hs
   | put => exact inv_put h hs
   | wStart k => exact inv_wStart h hs
   | wSelfKick k => exact inv_wSelfKick h hs
@@ -1346,8 +1407,16 @@ theorem no_lost_work {s : St} (h : Inv s) (hst : Stuck s) : ∀ i, i < s.ni → 
   | completed => rfl
   | queued =>
     have hq : s.queue ≠ [] := by intro he; have := hii.q_iff.1 hp; simp [he] at this
-    obtain ⟨k, hk, hr⟩ := h.owed hq
-    exact absurd hr (resp_moves h hst hk)
+    rcases h.owed hq with ⟨k, hk, hr⟩ | hr
+    · exact absurd hr (resp_moves h hst hk)
+    · -- no thread at all: the owner's loop still has thread_needed to handle
+      have hnf : s.freed = false := by
+        cases hf : s.freed
+        · rfl
+        · exact absurd (h.freed_imp hf).2.2.1 hq
+      rcases hr.2 with ht | ht
+      · have := hst .oTn rfl; simp [step, ho, ht, hnf] at this
+      · simp [ho] at ht
   | running =>
     have := hii.r_imp hp
     have hm := (worker_moves hst this.1).2.2.2.1
@@ -1406,10 +1475,19 @@ theorem drained {s : St} (h : Inv s) (hsh : s.shut = true) (hst : Stuck s) :
       simp [hj k hk, WPc.live] at hl
   have hfr : s.freed = true := by
     cases hf : s.freed
-    · rcases h.shut_ev hsh hst0 hf with he | he | ⟨b, he⟩
+    · rcases h.shut_ev hsh hst0 hf with he | he | ⟨b, he⟩ | ⟨hq, _⟩
       · have := hst .oEv rfl; simp [step, ho, he, hf] at this
       · simp [ho] at he
       · simp [ho] at he
+      · exfalso
+        cases hqq : s.queue with
+        | nil => exact hq hqq
+        | cons a l =>
+          have ha : a ∈ s.queue := by simp [hqq]
+          have hlt := h.queue_lt a ha
+          have := (h.items a hlt).q_iff.2 ha
+          have hc := no_lost_work h hst a hlt
+          rw [this] at hc; simp at hc
     · rfl
   refine ⟨no_lost_work h hst, hj, hfr, ?_⟩
   unfold poolObjs
@@ -1469,6 +1547,9 @@ theorem item_step {s s' : St} {a : Act} (h : Inv s) (hs : step s a = some s') {i
     simp only [step] at hs; split at hs <;> simp only [Option.some.injEq, reduceCtorEq] at hs
     subst hs; left; rw [enqueue_it s true hi]
   | submitc k =>
+    simp only [step] at hs; split at hs <;> simp only [Option.some.injEq, reduceCtorEq] at hs
+    subst hs; left; rw [enqueue_it s false hi]
+  | submitf =>
     simp only [step] at hs; split at hs <;> simp only [Option.some.injEq, reduceCtorEq] at hs
     subst hs; left; rw [enqueue_it s false hi]
   | put =>
@@ -1622,6 +1703,9 @@ theorem rank_step {s s' : St} {a : Act} (hs : step s a = some s') {j : Nat} (hj 
   | submitc k =>
     simp only [step] at hs; split at hs <;> simp only [Option.some.injEq, reduceCtorEq] at hs
     subst hs; rw [enqueue_pc s false hj]; omega
+  | submitf =>
+    simp only [step] at hs; split at hs <;> simp only [Option.some.injEq, reduceCtorEq] at hs
+    subst hs; rw [enqueue_pc s false hj]; omega
   | put =>
     simp only [step] at hs; split at hs <;> try simp at hs
     split at hs <;> simp at hs <;> subst hs
@@ -1744,6 +1828,7 @@ theorem free_exact {s s' : St} {a : Act} (h : Inv s) (hs : step s a = some s') (
     all_goals (exfalso; simp only [step] at hs)
     case submit => split at hs <;> simp only [Option.some.injEq, reduceCtorEq] at hs; subst hs; rw [enqueue_freed] at hf'; simp_all
     case submitc => split at hs <;> simp only [Option.some.injEq, reduceCtorEq] at hs; subst hs; rw [enqueue_freed] at hf'; simp_all
+    case submitf => split at hs <;> simp only [Option.some.injEq, reduceCtorEq] at hs; subst hs; rw [enqueue_freed] at hf'; simp_all
     case put => split at hs <;> try simp at hs
                 split at hs <;> simp at hs <;> subst hs <;> simp_all
     case wStart => split at hs <;> simp at hs; subst hs; simp_all [setW]
@@ -1780,8 +1865,7 @@ theorem free_exact {s s' : St} {a : Act} (h : Inv s) (hs : step s a = some s') (
   rename_i ho
   split at hs <;> simp at hs <;> subst hs
   · rename_i hc
-    obtain ⟨hsh, hst, hd⟩ := hc
-    have hq := queue_empty_of_started_zero h hst
+    obtain ⟨hsh, hst, hd, hq⟩ := hc
     have hlive : ∀ k, k < s.nw → (s.w k).pc.live = false := by
       intro k hk
       cases hl : (s.w k).pc.live
@@ -2097,8 +2181,9 @@ theorem post_only_to_live_loop {s s' : TSt} {a : TAct} (h : TInv s) (hs : tstep 
 theorem work_owed_weak {s : St} (h : Inv s) (hq : s.queue ≠ []) :
     (∃ k, k < s.nw ∧ ((s.w k).pc = .gotPre ∨ (s.w k).pc.isRunning = true)) ∨
     (∃ k, k < s.nw ∧ (s.w k).kickOwed = true) ∨
-    (∃ k, k < s.nw ∧ ((s.w k).pc = .starting ∨ (s.w k).pc = .selfkick)) ∨ s.tnOwed = true := by
-  obtain ⟨k, hk, hr⟩ := h.owed hq
+    (∃ k, k < s.nw ∧ ((s.w k).pc = .starting ∨ (s.w k).pc = .selfkick)) ∨ s.tnOwed = true ∨ s.owner = .tnPre := by
+  rcases h.owed hq with ⟨k, hk, hr⟩ | hr
+  case inr => exact Or.inr (Or.inr (Or.inr hr.2))
   unfold Resp at hr
   split at hr
   · rename_i hp; exact Or.inr (Or.inr (Or.inl ⟨k, hk, Or.inl hp⟩))
@@ -2114,6 +2199,219 @@ theorem loop_objects {s : St} (h : Inv s) :
     (∀ k, k < s.nw → ((s.w k).deadOwed = true ↔ (s.w k).pc = .exited)) := by
   refine ⟨?_, fun k hk => (h.wk k hk).dead_reg, fun k hk => (h.wk k hk).dead_owed⟩
   intro hf; simp [poolObjs, hf]
+
+
+/-! ### a submitter that is neither the owner nor one of the pool's workers (`submitf`) -/
+
+theorem die_ni (s : St) (k : Nat) : (die s k).ni = s.ni := by
+  unfold die; split
+  · rfl
+  · simp only []; split <;> rfl
+
+theorem loopTail_ni (s : St) (k : Nat) : (loopTail s k).ni = s.ni := by
+  unfold loopTail
+  split
+  · split <;> rfl
+  · split
+    · split
+      · split <;> rfl
+      · rw [die_ni]
+    · rfl
+
+theorem enqueue_ni (s : St) (b : Bool) : (enqueue s b).ni = s.ni + 1 := by
+  unfold enqueue
+  simp only []
+  split
+  · rfl
+  · split
+    · split <;> rfl
+    · rfl
+
+theorem enqueue_queue (s : St) (b : Bool) : (enqueue s b).queue = s.queue ++ [s.ni] := by
+  unfold enqueue
+  simp only []
+  split
+  · rfl
+  · split
+    · split <;> rfl
+    · rfl
+
+theorem enqueue_new (s : St) (b : Bool) : (enqueue s b).it s.ni = {} := by
+  have : (enq0 s).it s.ni = {} := by simp [enq0]
+  unfold enqueue
+  simp only []
+  split
+  · exact this
+  · split
+    · split
+      · exact this
+      · exact this
+    · exact this
+
+/-- items are numbered in submission order and a number is never taken back -/
+theorem step_ni_le {s s' : St} {a : Act} (hs : step s a = some s') : s.ni ≤ s'.ni := by
+  cases a <;> simp only [step] at hs
+  case submit => split at hs <;> simp only [Option.some.injEq, reduceCtorEq] at hs; subst hs; rw [enqueue_ni]; omega
+  case submitc => split at hs <;> simp only [Option.some.injEq, reduceCtorEq] at hs; subst hs; rw [enqueue_ni]; omega
+  case submitf => split at hs <;> simp only [Option.some.injEq, reduceCtorEq] at hs; subst hs; rw [enqueue_ni]; omega
+  case put => split at hs <;> try simp at hs
+              split at hs <;> simp at hs <;> subst hs <;> exact Nat.le_refl _
+  case wStart => split at hs <;> simp at hs; subst hs; exact Nat.le_refl _
+  case wSelfKick => split at hs <;> simp at hs; subst hs; exact Nat.le_refl _
+  case wKick => split at hs <;> simp at hs; subst hs; exact Nat.le_refl _
+  case wTimeout => split at hs <;> simp at hs; subst hs; exact Nat.le_refl _
+  case wExit => split at hs <;> simp at hs; subst hs; exact Nat.le_refl _
+  case oJoin => split at hs <;> simp at hs; subst hs; exact Nat.le_refl _
+  case oEv => split at hs <;> simp at hs; subst hs; exact Nat.le_refl _
+  case oSteal => split at hs <;> simp at hs; subst hs; exact Nat.le_refl _
+  case oTn => split at hs <;> simp at hs; subst hs; exact Nat.le_refl _
+  case oComplete => split at hs <;> simp only [Option.some.injEq, reduceCtorEq] at hs; subst hs; exact Nat.le_refl _
+  case oFinish => split at hs <;> try simp at hs
+                  split at hs <;> simp at hs <;> subst hs <;> exact Nat.le_refl _
+  case oTnRun => split at hs <;> try simp at hs
+                 split at hs <;> simp at hs <;> subst hs <;> exact Nat.le_refl _
+  case wTimeoutRun =>
+    split at hs <;> try simp at hs
+    split at hs
+    · split at hs <;> simp at hs <;> subst hs <;> exact Nat.le_refl _
+    · simp only [Option.some.injEq] at hs; subst hs; rw [die_ni]; exact Nat.le_refl _
+  case wEnter =>
+    split at hs <;> try simp at hs
+    split at hs
+    · simp at hs; subst hs; exact Nat.le_refl _
+    · simp only [Option.some.injEq] at hs; subst hs; rw [loopTail_ni]; exact Nat.le_refl _
+  case wAfter =>
+    split at hs <;> try simp at hs
+    split at hs <;> simp only [Option.some.injEq, reduceCtorEq] at hs
+    subst hs; rw [loopTail_ni]; exact Nat.le_refl _
+
+theorem reachFrom_inv {s t : St} (h : Inv s) (hr : ReachFrom s t) : Inv t := by
+  induction hr with
+  | refl => exact h
+  | step _ hs ih => exact inv_step ih hs
+
+theorem reachFrom_ni_le {s t : St} (hr : ReachFrom s t) : s.ni ≤ t.ni := by
+  induction hr with
+  | refl => exact Nat.le_refl _
+  | step _ hs ih => exact Nat.le_trans ih (step_ni_le hs)
+
+/-- what a submission from a foreign thread does: the item gets the next number and is appended to `work_items`;
+nothing else about the items changes; the pool is still usable (not freed), and either an idle worker was kicked and
+marked `kicked`, or `thread_needed` is now owed, or the pool is at `max_threads` with nobody idle -/
+theorem submitf_effect {s s' : St} (h : Inv s) (hs : step s .submitf = some s') :
+    s.shut = false ∧ s'.ni = s.ni + 1 ∧ s'.queue = s.queue ++ [s.ni] ∧ (s'.it s.ni).phase = .queued ∧
+    (s'.it s.ni).workRuns = 0 ∧ s'.nw = s.nw ∧ s'.started = s.started ∧ s'.freed = false ∧
+    ((∃ t rest, s.idle = t :: rest ∧ (s'.w t).kicked = true ∧ (s'.w t).kickOwed = true) ∨
+     (s.idle = [] ∧ s.started < s.max ∧ s'.tnOwed = true) ∨
+     (s.idle = [] ∧ s.started = s.max ∧ s'.tnOwed = s.tnOwed)) := by
+  simp only [step] at hs
+  split at hs <;> simp only [Option.some.injEq, reduceCtorEq] at hs
+  subst hs
+  rename_i hh
+  have hnf := handle_not_freed h hh
+  have hsh : s.shut = false := by
+    cases hc : s.shut
+    · rfl
+    · have := h.handle_shut.1 hh; simp_all
+  refine ⟨hsh, enqueue_ni s false, enqueue_queue s false, by rw [enqueue_new], by rw [enqueue_new], ?_, ?_,
+    by rw [enqueue_freed]; exact hnf, ?_⟩
+  all_goals
+    unfold enqueue
+    have hidle0 : (enq0 s).idle = s.idle := rfl
+    simp only [hidle0]
+    split
+  · rfl
+  · split
+    · rfl
+    · rfl
+  · rfl
+  · split
+    · rfl
+    · rfl
+  · rename_i t rest hidle
+    exact Or.inl ⟨t, rest, hidle, by simp [setW], by simp [setW]⟩
+  · rename_i hidle
+    have hidle' : s.idle = [] := hidle
+    split
+    · rename_i hlt
+      exact Or.inr (Or.inl ⟨hidle', hlt, rfl⟩)
+    · rename_i hge
+      have hle := h.started_le
+      have hge' : ¬ s.started < s.max := hge
+      exact Or.inr (Or.inr ⟨hidle', by omega, rfl⟩)
+
+/-- an item that is still queued is never forgotten: the pool has not been freed, and a worker is responsible for the
+queue, or no worker thread exists and `thread_needed` is owed to (or being handled by) the owner, in which case the
+handler will find `idle_threads` empty and `started_threads < max_threads`, i.e. it will start a thread -/
+theorem queued_owed {s : St} (h : Inv s) {i : Nat} (hi : i < s.ni) (hp : (s.it i).phase = .queued) :
+    s.freed = false ∧
+    ((∃ k, k < s.nw ∧ Resp s k) ∨
+     (s.started = 0 ∧ s.idle = [] ∧ s.started < s.max ∧ (s.tnOwed = true ∨ s.owner = .tnPre))) := by
+  have hm := (h.items i hi).q_iff.1 hp
+  have hq : s.queue ≠ [] := by intro he; simp [he] at hm
+  have hnf : s.freed = false := by
+    cases hf : s.freed
+    · rfl
+    · exact absurd (h.freed_imp hf).2.2.1 hq
+  refine ⟨hnf, ?_⟩
+  rcases h.owed hq with hr | hr
+  · exact Or.inl hr
+  · exact Or.inr ⟨hr.1, idle_empty_of_started_zero h hr.1, by have := h.max_pos; omega, hr.2⟩
+
+/-- no lost foreign continuation: whatever happens after the submission (any interleaving, further submissions, put),
+once the library can do nothing more the item has been run once by a worker and completed once by the owner -/
+theorem foreign_continuation_runs {s s' t : St} (h : Inv s) (hs : step s .submitf = some s')
+    (hr : ReachFrom s' t) (hst : Stuck t) :
+    s.ni < t.ni ∧ (t.it s.ni).phase = .completed ∧ (t.it s.ni).workRuns = 1 ∧ (t.it s.ni).complRuns = 1 := by
+  have h' := inv_step h hs
+  have ht := reachFrom_inv h' hr
+  have hni : s'.ni = s.ni + 1 := (submitf_effect h hs).2.1
+  have hle := reachFrom_ni_le hr
+  have hlt : s.ni < t.ni := by omega
+  have hc := no_lost_work ht hst s.ni hlt
+  have hii := ht.items s.ni hlt
+  refine ⟨hlt, hc, ?_, ?_⟩
+  · rw [hii.work_cnt, hc]; simp
+  · rw [hii.compl_cnt, hc]; simp
+
+/-- `iv_work_pool_put` leaves an owed `thread_needed` alone -/
+theorem put_keeps_tn {s s' : St} (hs : step s .put = some s') : s'.tnOwed = s.tnOwed ∧ s'.queue = s.queue ∧ s'.started = s.started := by
+  simp only [step] at hs
+  split at hs <;> try simp at hs
+  split at hs <;> simp at hs <;> subst hs <;> exact ⟨rfl, rfl, rfl⟩
+
+/-- `iv_work_thread_needed` does not look at `shutting_down`: with nobody idle and room below the maximum it starts a thread -/
+theorem tn_starts {s s' : St} (hs : step s .oTnRun = some s') (hi : s.idle = []) (hlt : s.started < s.max) :
+    s'.nw = s.nw + 1 ∧ s'.started = s.started + 1 ∧ (s'.w s.nw).pc = .starting ∧ s'.queue = s.queue ∧ s'.shut = s.shut := by
+  simp only [step] at hs
+  split at hs <;> try simp at hs
+  split at hs <;> simp at hs
+  · subst hs; simp [startThread]
+  · rename_i hc; exact absurd ⟨hi, hlt⟩ hc
+
+theorem shut_queue_owed {s : St} (h : Inv s) (hq : s.queue ≠ []) :
+    s.freed = false ∧
+    ((∃ k, k < s.nw ∧ Resp s k) ∨
+     (s.started = 0 ∧ s.idle = [] ∧ s.started < s.max ∧ (s.tnOwed = true ∨ s.owner = .tnPre))) := by
+  cases hqq : s.queue with
+  | nil => exact absurd hqq hq
+  | cons a l =>
+    have ha : a ∈ s.queue := by simp [hqq]
+    have hlt := h.queue_lt a ha
+    exact queued_owed h hlt ((h.items a hlt).q_iff.2 ha)
+
+/-- no worker thread left but work queued (only a submitter that is not the owner can produce this): the pool is not
+freed, `thread_needed` is owed or its handler is running, and the owner's loop has something to do -/
+theorem last_worker_gone_tn {s : St} (h : Inv s) (h0 : s.started = 0) (hq : s.queue ≠ []) :
+    s.freed = false ∧ (s.tnOwed = true ∨ s.owner = .tnPre) ∧ ¬ Stuck s := by
+  have hnf : s.freed = false := (shut_queue_owed h hq).1
+  have htn := tn_of_started_zero h h0 hq
+  refine ⟨hnf, htn, ?_⟩
+  intro hst
+  have ho := owner_moves hst
+  rcases htn with ht | ht
+  · have := hst .oTn rfl; simp [step, ho, ht, hnf] at this
+  · simp [ho] at ht
 
 end Proofs
 end Ivy.Work
